@@ -22,7 +22,10 @@ FileOK(j) ==
                             /\ (c.present => VecWF(f, 2) /\ VecLen(f, 2) = Len(c.items) /\ VecNext(f, 2) = Len(f) + 1
                                              /\ \A i \in 1..Len(c.items) : E2Nat(VecItem(f, 2, i - 1)) = c.items[i])
       [] e.t = "sparse" -> SparseWF(f, 1) /\ SparseN(f, 1) = c.len /\ SparseItems(f, 1) = c.ones /\ SparseNext(f, 1) = Len(f) + 1
+      \* ... and, since the document leaves the writer no choice (whole runs per block, a block is closed early only when the
+      \* next run does not fit, minimal sample width), the file IS the document-derived encoding of the runs
       [] e.t = "rl"     -> RLWF(f, 1) /\ N(f, 1) = c.len /\ RLRuns(f, 1) = c.runs /\ RLNext(f, 1) = Len(f) + 1
+                           /\ f = EncRL(c.len, c.runs, 0)
       [] e.t = "wmcore" -> CoreWF(f, 1) /\ CoreItems(f, 1) = c.vals /\ CoreNext(f, 1) = Len(f) + 1
       [] e.t = "wmcore64" -> CoreWF(f, 1) /\ CoreItemSets(f, 1) = [i \in 1..Len(c.vals) |-> ToSet(c.vals[i])] /\ CoreNext(f, 1) = Len(f) + 1
       [] e.t = "wm"     -> WMWF(f, 1) /\ N(f, 1) = Len(c.vals) /\ CoreItems(f, 2) = c.vals /\ WMNext(f, 1) = Len(f) + 1
